@@ -1,6 +1,7 @@
 package main
 
 import (
+	"io"
 	"encoding/json"
 	"fmt"
 	"math/rand"
@@ -155,8 +156,23 @@ func replayZapio(steps []zapioStep, al map[string]string) (bad bool, key, what s
 	lvl := zap.NewAtomicLevelAt(zap.InfoLevel)
 	core, logs := observer.New(lvl)
 	w := &zapio.Writer{Log: zap.New(core), Level: zap.InfoLevel}
+	// the rest of the process is not idle between two calls: another Writer holds a fragment of its own, and a
+	// logger encodes entries (the writer's state is its own: none of this is an action of ZapIO.tla)
+	noiseCore, noiseLogs := observer.New(zap.InfoLevel)
+	w2 := &zapio.Writer{Log: zap.New(noiseCore), Level: zap.InfoLevel}
+	noiseLog := zap.New(zapcore.NewCore(zapcore.NewJSONEncoder(zapcore.EncoderConfig{MessageKey: "m"}), zapcore.AddSync(io.Discard), zap.InfoLevel))
+	noise := func(i int) (bool, string, string) {
+		w2.Write([]byte("##other-writer-fragment##"))
+		noiseLog.Info("##unrelated entry##", zap.String("k", "##unrelated##"), zap.Int("i", i))
+		if i%2 == 1 {
+			w2.Write([]byte("\n"))
+			if es := noiseLogs.TakeAll(); len(es) != 1 || strings.Trim(es[0].Message, "#otherwifagmn-") != "" {
+				return true, "C17/lines-differ", fmt.Sprintf("a second zapio.Writer used between the calls logged %v for fragments of '##other-writer-fragment##'", es)
+			}
+		}
+		return false, "", ""
+	}
 	enabled := true
-	everOff := false
 	// reference on concrete bytes
 	var want []string
 	cur := ""
@@ -202,23 +218,25 @@ func replayZapio(steps []zapioStep, al map[string]string) (bad bool, key, what s
 			if err != nil {
 				return true, "C17/sync-error", fmt.Sprintf("step %d %s returned %v", i, st.Op, err)
 			}
-			if cur != "" {
+			if cur != "" && enabled {
 				want = append(want, cur)
 			}
-			cur = ""
+			cur = "" // a flush while the level is disabled discards the pending fragment
 		case "E":
 			enabled = !enabled
-			everOff = true
 			if enabled {
 				lvl.SetLevel(zap.InfoLevel)
 			} else {
 				lvl.SetLevel(zap.ErrorLevel)
 			}
 		}
+		if bad, key, what := noise(i); bad {
+			return bad, key, what
+		}
 		if !enabled && logs.Len() != before {
 			return true, "C17/logged-while-disabled", fmt.Sprintf("step %d %s logged %d message(s) while the level is disabled", i, st.Op, logs.Len()-before)
 		}
-		if !everOff {
+		{
 			// expected value = the spec's predicted observable (TLC has checked it equals Lines(consumed));
 			// the Go-side recomputation above only guards the harness itself.
 			specWant := []string{}
